@@ -17,6 +17,7 @@ import itertools
 import os
 import random
 import re
+import time
 from concurrent.futures import ProcessPoolExecutor
 import multiprocessing
 
@@ -143,7 +144,14 @@ def resolve(own, aseq, masks=(), owners=None):
 
 
 def show(aseq):
-    return ' '.join(s if not sel else '%s+%d' % (s, sel) for s, sel in aseq)
+    """'An*3 Df+2 Q': run-length compressed abstract sequence."""
+    out = []
+    for t in (s if not sel else '%s+%d' % (s, sel) for s, sel in aseq):
+        if out and out[-1][0] == t:
+            out[-1][1] += 1
+        else:
+            out.append([t, 1])
+    return ' '.join(t if n == 1 else '%s*%d' % (t, n) for t, n in out)
 
 
 # --------------------------------------------------------------------------------------------- running scripts
@@ -267,13 +275,22 @@ def evaluate(cases, masks=(), fork=False):
 # --------------------------------------------------------------------------------------------- shrinking and keys
 FAMILIES = [['An', 'Ae', 'Ah', 'Ad'], ['Df', 'Dl'], ['Cl', 'Dx']]
 QUERIES = ('Ff', 'Gi', 'Gn', 'Ix', 'Kc', 'Mx')
+SHRINK_BYTES = 200 << 20
 
 
 def shrink(own, aseq, kind, masks=(), step=None):
     """Reduce (own, aseq) while the first divergence keeps the same kind.  -> (own flag 'any'|'0'|'1', aseq).
     Candidates of one round run in one `instmon --fork` process (a candidate that crashes does not end the round)."""
+    spent = [0]
+
     def failing(cands, o=own):
-        return [bool(e[3]) and e[3][1] == kind for e in evaluate([(o, c) for c in cands], masks, fork=True)]
+        # effort bound: 200 MB of harness output per shrink (long scripts over large populations print O(n^2));
+        # when it is used up the current sequence is taken as it is
+        if spent[0] > SHRINK_BYTES:
+            return [False] * len(cands)
+        ev = evaluate([(o, c) for c in cands], masks, fork=True)
+        spent[0] += sum(sum(len(l) for l in e[5][0]) for e in ev)
+        return [bool(e[3]) and e[3][1] == kind for e in ev]
 
     def remove_pass(seq):
         c = max(len(seq) // 2, 1)
@@ -329,6 +346,7 @@ def shrink(own, aseq, kind, masks=(), step=None):
                 if f:
                     seq, changed = cand, True
                     break
+    spent[0] = min(spent[0], SHRINK_BYTES)     # the ownership question is always asked
     flag = 'any' if failing([seq], 1 - own)[0] else str(own)
     return flag, seq
 
@@ -391,7 +409,7 @@ def _work(task):
     """One batch in a worker process.  task = (label, [(own, aseq, profile)], masks) -> summary dict."""
     label, cases, masks = task
     ev = evaluate([(o, s) for o, s, _p in cases], masks)
-    s = dict(label=label, scripts=0, ops=0, events=0, flags={}, soft={}, notes={}, distinct=[], fails=[], inconc=[], samples=[], nontrivial=0)
+    s = dict(label=label, scripts=0, ops=0, events=0, flags={}, soft={}, notes={}, distinct=[], fails=[], inconc=[], samples=[], masked_scripts=0)
     for (own, aseq, prof), (toks, notes, j, div, inc, res) in zip(cases, ev):
         s['scripts'] += 1
         s['ops'] += j['steps']
@@ -402,6 +420,7 @@ def _work(task):
             s['soft'][k] = s['soft'].get(k, 0) + v
         for k, v in notes.items():
             s['notes'][k] = s['notes'].get(k, 0) + v
+        s['masked_scripts'] += 1 if notes else 0
         if any(t[0] in 'ARDC' for t in toks[1:]):
             s['distinct'].append(_digest(toks))
         if inc:
@@ -458,6 +477,7 @@ def main(chk):
                 chk.count('soft:' + k, v)
             for k, v in s['notes'].items():
                 chk.count(k, v)
+            chk.count('scripts_with_a_masked_operation', s['masked_scripts'])
             distinct.update(s['distinct'])
             fails += s['fails']
             for r in s['inconc'][:3]:
@@ -470,7 +490,6 @@ def main(chk):
     if chk.counters.get('operations_judged') and not chk.counters.get('hook_events_ok'):
         chk.inconc('hook H2 (InstMgr::VerifCheck) wrote no event: the build has no STEPCODE_VERIF hooks')
 
-    import time
     t1 = time.time()
     report(chk, fails, masks)
     t2 = time.time()
@@ -484,7 +503,8 @@ def main(chk):
         assumptions=['reference model vf/c13_ref.py', 'gcc ASan/UBSan runtimes; hook H2 compiled in (san flavour)',
                      'ids stay far below INT_MAX; indexes passed to look-ups are in [0, count+1]; Delete is only called on members',
                      'masks active (open findings, each exercised by its probe): %s' % (list(masks) or 'none')],
-        exhaustive=True)
+        exhaustive=True,
+        extra=dict(unmasked_fraction=round(1.0 - chk.counters.get('scripts_with_a_masked_operation', 0) / float(max(chk.evaluations, 1)), 4)))
 
 
 def report(chk, fails, masks):
@@ -549,7 +569,7 @@ def emit(chk, key, f, masks):
             if fr:
                 what += '; frames: %s' % fr
         files['abstract.txt'] = 'own=%s: %s\n' % (flag, show(seq)) + ''.join('  %s = %s\n' % (s, MEANING[s]) for s in sorted(set(x for x, _ in seq)))
-        what += '; minimal script: %s' % ' '.join(toks)
+        what += '; minimal script: %s' % ' '.join(toks)[:300]
     chk.violation(key, what, files, dict(source=f['label'], own=f['own']))
 
 
